@@ -284,7 +284,9 @@ def _run_random(run: Any) -> None:
     """Beyond the exhaustive bound: seeded random layouts with 4..8 genes on records of 60/61
     bases, arbitrary (off-grid) coordinates, random queries."""
     rng = run.rng
-    while not run.out_of_time():
+    for _ in range(4000):                  # bounded, so that the evidence stays of a sane size
+        if run.out_of_time():
+            break
         length = rng.choice((60, 61))
         circular = rng.random() < 0.5
         genes: List[List[int]] = []
